@@ -21,6 +21,8 @@ meta = dict(
     violation_classes=classes,
 )
 mp = os.path.join(d, 'meta.json')
+if '--initially-missed' in sys.argv:
+    meta['initially_missed'] = True
 if os.path.exists(mp):                      # keep hand-written fields; remember that a seed was missed at first
     old = json.load(open(mp))
     for k in ('note', 'summary', 'round'):
